@@ -1093,7 +1093,7 @@ def run(ctx):
         "one injected exception at every fault point (body, encoder, n-th file write, close, open, final flush that loses the buffered "
         "bytes, an item that can never be written) of a session, the faulted writes carrying zero-filled values; writing sessions that "
         "read an earlier record before they store new ones; handles that arrive pickled from a parent that created the library with "
-        "overwrite=True and are unpickled under the scheduler; one process working on two libraries in sequential sessions, one of which fails in its exit flush; a construction family in which the handles are created under the scheduler; a lifecycle family with "
+        "overwrite=True and are unpickled under the scheduler; one process working on two libraries in sequential sessions, one of which fails in its exit flush; a session on another library (same name, other case) nested inside a session; a process that gives up on a session (timeout), goes on with a new handle and loses the last reference to the old one in the middle of the new session; sessions ended by KeyboardInterrupt / GeneratorExit / SystemExit; before every action of a worker that holds the lock the controller probes the lock file with a conflicting non-blocking lock (must be refused); a construction family in which the handles are created under the scheduler; a lifecycle family with "
         "sessions that give up after a timeout and processes that exit normally (captured atexit hooks run under the scheduler) while "
         "others continue; a re-creation family in which another process creates the library anew (overwrite=True, header of another "
         "length) before, between or after the sessions of a long-lived handle; a configuration family in which the processes learn "
